@@ -246,13 +246,16 @@ where
             _ => {
                 let mut updated = false;
                 let mut offset = 0;
+                //new items are appended at the end, only the original (sorted) part is searched
+                let origlen = self.array.len();
                 for item in other.iter() {
                     if self.sorted && other.sorted {
                         //optimisation if both are sorted
-                        match self.array[offset..].binary_search(&item) {
-                            Ok(index) => offset = index + 1,
+                        //(the index found by the binary search is relative to the slice that was searched)
+                        match self.array[offset..origlen].binary_search(&item) {
+                            Ok(index) => offset += index + 1,
                             Err(index) => {
-                                offset = index + 1;
+                                offset += index;
                                 updated = true;
                                 self.add_unchecked(item);
                             }
@@ -289,8 +292,9 @@ where
                     if self.iter().zip(other.iter()).all(|(x, y)| x == y) {
                         return;
                     }
-                } else if otherlen < len {
+                } else if otherlen < len && self.sorted && other.sorted {
                     //check if we need to modify the vector in place or if we can just copy the other
+                    //(only if both are sorted, otherwise the order of this collection would not be retained)
                     if self.contains_subset(other) {
                         self.array = other.array.clone(); //may be cheap if borrowed, expensive if owned
                         return;
@@ -308,13 +312,14 @@ where
         self.array.to_mut().retain(|x| {
             if self.sorted && other.sorted {
                 //optimisation if both are sorted
+                //(the index found by the binary search is relative to the slice that was searched)
                 match other.array[offset..].binary_search(x) {
                     Ok(index) => {
-                        offset = index + 1;
+                        offset += index + 1;
                         true
                     }
                     Err(index) => {
-                        offset = index + 1;
+                        offset += index;
                         false
                     }
                 }
